@@ -17,9 +17,9 @@ Tie, re-run from VERIF_REPO's working tree on every invocation:
      sorted) and keyspace dumps must agree; for the modelled families both traces are replayed
      by the extracted srv_exec; every log entry the implementation produced must be byte for
      byte what encode_proposal gives and decode to the client's argument vector.
- thorough: real node processes -- a standalone server, a single-node cluster and a three-node
-     cluster on localhost run the same clock-free program; replies and VERIFDUMP of every node
-     compared."""
+ (R) real node processes -- a standalone server and a three-node cluster on localhost (thorough:
+     also a single-node cluster, longer programs) run the same clock-free program, commands sent
+     round-robin to the nodes; every reply and the VERIFDUMP of every node are compared."""
 import collections
 import json
 import re
@@ -42,6 +42,11 @@ def build():
     if not ok:
         return "harness_cluster build failed (does the repository still compile with -tags verif?): " + log[-2500:]
     return None
+
+
+def defake(text):
+    """stdout/stderr of a faketime binary are framed (header, 8 byte time, 4 byte length): drop the frames"""
+    return re.sub(r"\x00\x00PB.{1,8}?\x00\x00.{2}", "", text, flags=re.S)
 
 
 # ----------------------------------------------------------------------------- (E) encoder tie
@@ -86,14 +91,17 @@ def run_mode(d, mode, progtext, tag, timeout=900):
     for f in (out, d / (out.name + ".wire"), d / (out.name + ".entries")):
         if f.exists():
             f.unlink()
+    # ProposalTimeout (10 s) is lifted: a blocking pop that waits longer than that is answered with the
+    # time-out error in cluster mode (open finding blocking-pop-vs-proposal-timeout); waiting is free
+    # under the virtual clock, the harness gives every step 60 s
     rc, log = lib.sh("%s c14run %s %s %s %s" % (lib.BUILD / HB, mode, prog, out, d), cwd=d, timeout=timeout,
-                     extra_env={"GOMAXPROCS": "1"})
+                     extra_env={"GOMAXPROCS": "1", "VERIF_PROPOSAL_TIMEOUT_MS": "3600000"})
     if rc != 0 or not out.exists():
         where = ""
         pf = d / (out.name + ".progress")
         if pf.exists():
             where = pf.read_text().strip()
-        return out, "c14run %s rc=%s at=%s log=%s" % (mode, rc, where, log[-1200:])
+        return out, "c14run %s rc=%s at=%s log=%s" % (mode, rc, where, defake(log)[-1500:])
     return out, None
 
 
@@ -219,6 +227,49 @@ def entries_verdict(d, entries, tag):
     return bad, n, None
 
 
+REFUSAL = b"-command does not pass checks\r\n".hex()
+
+
+def check_routing(d, progtext, tag):
+    """Cluster path only: which commands are refused / executed locally / proposed must be what
+    cluster_filter and is_rconf of the model say (C14_filter_refuses_only_pubsub), a refused
+    command is answered with the refusal and leaves the keyspace alone."""
+    res = dict(failing=None, err=None, steps=0, cases=0, entries=0, cut=0, trace="")
+    tc, err = run_mode(d, "cluster", progtext, tag)
+    allc = {memlib.case_name(c): c for c in memlib.split_cases(progtext)}
+    res["cases"] = len(allc)
+    if err:
+        m = re.search(r"at=(\S+) (\d+)", err)
+        res["failing"] = dict(kind="cluster-path-died", detail=err, case=allc.get(m.group(1)) if m else None)
+        return res
+    rf = d / (tag + ".route")
+    rc, log = lib.sh("%s route %s %s" % (lib.BUILD / "clusterrun", tc, rf), cwd=d, timeout=600)
+    if rc != 0:
+        res["err"] = "clusterrun route rc=%s %s" % (rc, log[-800:])
+        return res
+    res["trace"] = tc.read_text()
+    proposed = set()
+    for l in (d / (tc.name + ".entries")).read_text().splitlines():
+        fs = l.split()
+        proposed.add((fs[1], int(fs[2])))
+    wires = parse_wire(d / (tc.name + ".wire"))
+    name, si = None, 0
+    for l in rf.read_text().splitlines():
+        if l.startswith("CASE "):
+            name, si = l.split()[1], 0
+            continue
+        si += 1
+        res["steps"] += 1
+        w = wires[name][si - 1][1]
+        obs = "P" if (name, si) in proposed else "R" if w == REFUSAL else "L"
+        if obs != l.strip():
+            res["failing"] = dict(kind="cluster-routing-vs-model", case=allc[name],
+                                  detail=dict(step=si, model=l.strip(), implementation=obs, reply=w[:200],
+                                              legend="R refused by the filter, L executed locally (rconf), P proposed to the log"))
+            return res
+    return res
+
+
 def check_programs(d, progtext, tag, with_model):
     """Runs one program file through both paths (and the model). Returns dict(failing=..., stats...)."""
     res = dict(failing=None, err=None, steps=0, cases=0, entries=0, cut=0, trace="")
@@ -272,9 +323,11 @@ def check_programs(d, progtext, tag, with_model):
     return res
 
 
-def shrink(d, lines, with_model, budget=120):
+def shrink(d, lines, with_model, budget=120, fn=None):
+    fn = fn or (lambda t, tag: check_programs(d, t, tag, with_model))
+
     def bad(ls):
-        r = check_programs(d, "\n".join(ls) + "\n", "shrink", with_model)
+        r = fn("\n".join(ls) + "\n", "shrink")
         return bool(r["failing"] or r["err"])
     head, body, tail = lines[0], lines[1:-1], lines[-1]
     n, chunk = 0, max(1, len(body) // 2)
@@ -318,8 +371,33 @@ def hostile_stats(trace_text):
     return dict(n)
 
 
+def sanitize_program(d, prog, rounds=60):
+    """Real processes cannot recover a panicking executor: drop, one by one, the steps on which the
+    in-process standalone run panics or hangs (defects of the command families themselves, C04)."""
+    prog = list(prog)
+    for _ in range(rounds):
+        c = gen.Case("sanitize")
+        for cmd in prog:
+            c.cmd(cmd)
+        t, err = run_mode(d, "standalone", c.text(), "sanitize")
+        if err:
+            return None, err
+        bad = None
+        si = 0
+        for l in t.read_text().splitlines():
+            if l.startswith("S "):
+                if l.rstrip().endswith(("!PANIC", "!HANG", "!SKIP")):
+                    bad = si
+                    break
+                si += 1
+        if bad is None:
+            return prog, None
+        del prog[bad]
+    return None, "program still panics after %d removals" % rounds
+
+
 # ----------------------------------------------------------------------------- thorough: processes
-def run_processes(ctx, prog):
+def run_processes(ctx, prog, sizes=(1, 3)):
     """The same clock-free program on a real standalone server and on real clusters of 1 and 3
     nodes; every reply and the final VERIFDUMP of every node are compared.
     Returns (failing-or-None, err-or-None, stats)."""
@@ -357,7 +435,7 @@ def run_processes(ctx, prog):
             expected.append(clusterlib.canon_for_cmd(name, ref.cmd(cmd)))
         ref_dump = ref.cmd([b"verifdump"])
         ref_dump = sorted(clusterlib.split_top(ref_dump[2:-1])[1:])
-        for n in (1, 3):
+        for n in sizes:
             c = clusterlib.Cluster(binary, n, tag="c14p%d" % n)
             clusters.append(c)
             c.start_all()
@@ -417,7 +495,8 @@ def run(ctx):
             print(json.dumps(diff or err or "encoder agrees with the model on this vector", indent=1))
             return 1 if (diff or err) else 0
         if r.get("case_lines"):
-            res = check_programs(d, "\n".join(r["case_lines"]) + "\n", "replay", r.get("with_model", True))
+            text = "\n".join(r["case_lines"]) + "\n"
+            res = check_routing(d, text, "replay") if r.get("with_model", True) is None else check_programs(d, text, "replay", r.get("with_model", True))
             print(res["trace"][-3000:])
             print(json.dumps(dict(failing=res["failing"], err=res["err"]), indent=1, default=str))
             return 1 if (res["failing"] or res["err"]) else 0
@@ -442,9 +521,11 @@ def run(ctx):
         cdir = lib.VERIF / "corpus"
         for f in sorted(cdir.glob("c14_*.prog")):
             plan.insert(0, ("corpus_" + f.stem, f.read_text(), True))
+        plan.append(("f", gen_cluster.gen_c14_filter_cases(ctx.seed, 150 if quick else 2000), None))
         for tag, cases, with_model in plan:
             text = cases if isinstance(cases, str) else "".join(c.text() for c in cases)
-            res = check_programs(d, text, tag, with_model)
+            fn = (lambda t, tg: check_routing(d, t, tg)) if with_model is None else (lambda t, tg, wm=with_model: check_programs(d, t, tg, wm))
+            res = fn(text, tag)
             stats["steps"] += res["steps"]
             stats["cases"] += res["cases"]
             stats["entries"] += res["entries"]
@@ -462,20 +543,25 @@ def run(ctx):
                 failing["source"] = tag
                 case = failing.pop("case", None)
                 if case:
-                    small = shrink(d, case, with_model)
-                    final = check_programs(d, "\n".join(small) + "\n", "final", with_model)
+                    small = shrink(d, case, with_model, fn=fn)
+                    final = fn("\n".join(small) + "\n", "final")
                     failing.update(case_lines=small, readable=memlib.decode_case(small),
                                    shrunk_verdict=final["failing"] and {k: v for k, v in final["failing"].items() if k != "case"},
                                    trace_tail=final["trace"].splitlines()[-12:])
             if failing or err:
                 break
     pstats = {}
-    if not quick and not err and not failing:
-        prog = gen_cluster.gen_process_program(ctx.seed, 1500, fam="sl") + gen_cluster.gen_process_program(ctx.seed + 1, 500, fam="o")
+    if not err and not failing:
+        if quick:
+            prog = gen_cluster.gen_process_program(ctx.seed, 300, fam="sl") + gen_cluster.gen_process_program(ctx.seed + 1, 100, fam="o")
+        else:
+            prog = gen_cluster.gen_process_program(ctx.seed, 3000, fam="sl") + gen_cluster.gen_process_program(ctx.seed + 1, 1000, fam="o")
         # only steps the standalone executor answers without panicking are sent to real nodes
-        f, perr, pstats = run_processes(ctx, [c for c in prog if c])
-        if f:
-            failing = f
+        prog, perr = sanitize_program(d, [c for c in prog if c])
+        if prog:
+            f, perr, pstats = run_processes(ctx, prog, sizes=(3,) if quick else (1, 3))
+            if f:
+                failing = f
         err = err or perr
     rc = 0
     if failing:
